@@ -80,6 +80,9 @@ func runC06(c *Ctx) {
 		}
 	}
 	for f, r := range m.Rbp {
+		for _, ret := range m.operandBypass(p, f, r) {
+			c.violated("R1", "rbp-bypass "+shortName(f), p.InstrPos(ret), "this parselet can return a node without having parsed its operand through the precedence-climbing function: on that path the operand is taken with a different binding power, so the grouping matrix does not describe it (e.g. a suffix then attaches to the whole prefix expression)")
+		}
 		if strings.HasPrefix(r.Why, "UNDECIDED") {
 			c.undecided("R1", "rbp "+shortName(f), p.Pos(f.Pos()), r.Why)
 		} else {
